@@ -16,7 +16,7 @@
    element checks are C14_parallel / C14_assign_refuted. Tie: accept/reject, diagnostic
    classes and presence of the output file of the real cff against the model and against the
    independent boolean rules wf_b on every generated flow and mutation, one flow per file. *)
-From CffVerif Require Import ValidateModel ValidateProofs ValidateWalk.
+From CffVerif Require Import ValidateModel ValidateProofs ValidateWalk SignatureModel SignatureProofs.
 
 Theorem C14_dup_params : forall f, chk_dup_param f = false <-> NoDup (map TUser (fparams f)).
 Proof. exact chk_dup_param_spec. Qed.
@@ -107,3 +107,44 @@ Example C14_example_ok :
                           {| tins := [2]; touts := []; tpred := None; tinvoke := true |} ] |} in
   accepts f = true /\ wf_b f = true.
 Proof. split; reflexivity. Qed.
+
+(* "... and uses supported signatures": how the generator reads a task's or predicate's
+   function (compileFunction, compilePredicate, the FallbackWith/Invoke rules). A signature is
+   accepted exactly when it is not variadic, context.Context occurs at most as the first
+   parameter and error at most as the last result; for every accepted one the generated call
+   fn(ctx?, inputs...) and the bindings outputs..., err? := are the function's parameter and
+   result lists, so the generated code type-checks against the user's function. *)
+Theorem C14_supported_signatures :
+  forall s, (exists f, compile_function s = inl f) <-> supported s.
+Proof. exact accepts_iff_supported. Qed.
+Print Assumptions C14_supported_signatures.
+
+Theorem C14_refusal_reasons :
+  forall s d, compile_function s = inr d ->
+    (d = SVariadic /\ sg_variadic s = true) \/
+    (d = SCtxPos /\ exists j, j <> 0 /\ nth_error (sg_params s) j = Some GCtx) \/
+    (d = SErrPos /\ exists j, S j <> length (sg_results s) /\ nth_error (sg_results s) j = Some GErr).
+Proof. exact refusal_reasons. Qed.
+Print Assumptions C14_refusal_reasons.
+
+Theorem C14_call_matches_signature :
+  forall s f, compile_function s = inl f ->
+    call_args f = sg_params s /\ call_binds f = sg_results s /\
+    existsb is_ctx (cf_inputs f) = false /\ existsb is_err (cf_outputs f) = false.
+Proof. exact call_matches_signature. Qed.
+Print Assumptions C14_call_matches_signature.
+
+Theorem C14_predicate_shape :
+  forall s f, compile_predicate s = inl f ->
+    cf_outputs f = [GBool] /\ cf_haserr f = false /\ call_args f = sg_params s /\ sg_results s = [GBool].
+Proof. exact predicate_shape. Qed.
+Print Assumptions C14_predicate_shape.
+
+Theorem C14_accepted_task :
+  forall t, compile_task t = [] ->
+    exists f, compile_function (td_fn t) = inl f /\
+      (forall k, td_fallback t = Some k -> k = length (cf_outputs f) /\ cf_haserr f = true) /\
+      (forall ps, td_pred t = Some ps -> exists pf, compile_predicate ps = inl pf) /\
+      (td_invoke t = true <-> cf_outputs f = []).
+Proof. exact accepted_task. Qed.
+Print Assumptions C14_accepted_task.
